@@ -180,8 +180,11 @@ func main() {
 	if testbin == "" || scratch == "" {
 		ev.Fatal("VERIF_C20_TESTBIN / VERIF_SCRATCH not set (run through bin/check C20)")
 	}
-	r.Rule = "full product {walked route x registered method (+ OPTIONS/HEAD/extra-method probes) x Authorization variant " +
-		"x Accept-Encoding x Origin} per configuration {MODE x CORS x credential set}; a case is one HTTP request sent " +
+	r.Rule = "per configuration {MODE x CORS x credential set}: {walked route x registered method (+ every unregistered method, " +
+		"OPTIONS with the full preflight product)} x [every Authorization value x Accept-Encoding{-,gzip} x Origin{-,evil} UNION one " +
+		"representative per Authorization class x the full product of the middlewares' request-header vocabulary (Accept-Encoding x Origin x " +
+		"Access-Control-Request-Method x Access-Control-Request-Headers x Content-Encoding, + Referer, User-Agent; the vocabulary is " +
+		"checked against the header reads found in the source)]; a case is one HTTP request sent " +
 		"through the router that the real main() serves (in process) or through main()'s own TCP listener; distinct = " +
 		"(route template, method, variant id)"
 	r.Assumptions = []string{
